@@ -92,7 +92,7 @@ func (s *store) Create(key string, sizeBytes uint64) (*File, error) {
 
 func (s *store) reserveSpace(space uint64) bool {
 	// TODO - consider whether it's a worth optimization to check if we can evict enough data BEFORE we start evicting, as to prevent evicting needlessly.
-	for s.size+space > s.capacity {
+	for !s.fits(space) {
 		if s.evictQueue.Len() == 0 {
 			return false
 		}
@@ -109,6 +109,12 @@ func (s *store) reserveSpace(space uint64) bool {
 
 	s.size += space
 	return true
+}
+
+// fits reports whether space more bytes can be reserved without exceeding capacity.
+// It must not compute s.size+space, which wraps around for sizes close to 2^64.
+func (s *store) fits(space uint64) bool {
+	return space <= s.capacity && s.size <= s.capacity-space
 }
 
 func (s *store) releaseSpace(space uint64) {
